@@ -65,9 +65,10 @@ St2DepEv(ev) ==
       inDomain == Pow(N(10), a.da) \preceq a.pa /\ Pow(N(10), a.db) \preceq a.pb
       U == Pow(N(10), 18 - (IF a.da < a.db THEN a.da ELSE a.db))
       suffix == IF a.da # a.db THEN "(unequal-decimals)" ELSE ""
-      tol == (N(16) ++ Lopsided(NMax(A1, B1), NMin(A0, B0))) ** U
+      e0 == (N(16) ++ Lopsided(NMax(A0, B0), NMin(A0, B0))) ** U
+      e1 == (N(16) ++ Lopsided(NMax(A1, B1), NMin(A1, B1))) ** U
   IN IF ~inDomain \/ ev.res # "ok" THEN <<>>
-     ELSE MintChecks("C03", suffix, ev.out.minted, a.S, Dstar2(A0, B0, a.amp), Dstar2(A1, B1, a.amp), tol)
+     ELSE MintChecks("C03", suffix, ev.out.minted, a.S, Dstar2(A0, B0, a.amp), Dstar2(A1, B1, a.amp), e0, e1)
 
 \* ---- three-asset curve (C04): raw base units -----------------------------------------------------------------
 \* floor(D after) < floor(D before) proves that the real invariant fell (literal clause).  The code solves D and y by
@@ -97,10 +98,10 @@ St3SwapEv(ev) ==
 St3DepEv(ev) ==
   LET a == ev.args IN
   IF ev.res # "ok" THEN <<>>
-  ELSE LET hi == NMax(a.pa ++ a.xa, NMax(a.pb ++ a.xb, a.pc ++ a.xc))
-           lo == NMin(a.pa, NMin(a.pb, a.pc))
-       IN MintChecks("C04", "", ev.out.minted, a.S, Dstar3(a.pa, a.pb, a.pc, a.amp),
-                     Dstar3(a.pa ++ a.xa, a.pb ++ a.xb, a.pc ++ a.xc, a.amp), N(16) ++ Lopsided(hi, lo))
+  ELSE LET qa == a.pa ++ a.xa  qb == a.pb ++ a.xb  qc == a.pc ++ a.xc
+           e0 == N(16) ++ Lopsided(NMax(a.pa, NMax(a.pb, a.pc)), NMin(a.pa, NMin(a.pb, a.pc)))
+           e1 == N(16) ++ Lopsided(NMax(qa, NMax(qb, qc)), NMin(qa, NMin(qb, qc)))
+       IN MintChecks("C04", "", ev.out.minted, a.S, Dstar3(a.pa, a.pb, a.pc, a.amp), Dstar3(qa, qb, qc, a.amp), e0, e1)
 AmpEv(ev) ==
   LET a == ev.args  v == ev.out.amp IN
   << <<"C04.amp.computed", ev.res = "ok">>,
